@@ -56,6 +56,15 @@ def random_params(rng, small=False):
              step_limit=rng.choice([None, 500]))
     if rng.random() < 0.25:
         p["address_space_bounds"] = (40, 6)
+    if rng.random() < 0.25:
+        # probabilities given one by one (distinct values: a definition that loses or repeats one shows)
+        nexp = nsrv if p["num_exploits"] is None else p["num_exploits"]
+        npe = nproc if p["num_privescs"] is None else p["num_privescs"]
+        vals = [0.125, 0.25, 0.375, 0.5, 0.625, 0.75, 0.875, 1.0, 0.0625, 0.1875, 0.3125, 0.4375, 0.5625, 0.6875,
+                0.8125, 0.9375, 0.03125, 0.09375]
+        if nexp <= len(vals) and npe <= len(vals):
+            p["exploit_probs"] = rng.sample(vals, nexp)
+            p["privesc_probs"] = rng.sample(vals, npe)
     if p["exploit_probs"] is None or p["privesc_probs"] is None:
         pass
     return p
@@ -118,6 +127,13 @@ def judge_generated(params, sc):
             and 0 < e["prob"] <= 1 and e["access"] == 2
         if not ok:
             bad.append("escalation definition")
+    for what, defs, spec_ in (("exploit", sc.exploits, p["exploit_probs"]), ("escalation", sc.privescs, p["privesc_probs"])):
+        got = [float(e["prob"]) for e in defs.values()]
+        if isinstance(spec_, (int, float)) and not isinstance(spec_, bool):
+            if any(x != float(spec_) for x in got):
+                bad.append(f"{what} probabilities are not the requested {spec_}")
+        elif isinstance(spec_, (list, tuple)) and got != [float(x) for x in spec_]:
+            bad.append(f"{what} probabilities {got} are not the requested list {list(spec_)} (in order of definition)")
     sens = dict(sc.sensitive_hosts)
     if sens.get((2, 0)) != p["r_sensitive"] or len(sens) != 2 or \
        not any(a[0] >= 3 and v == p["r_user"] for a, v in sens.items()):
@@ -181,6 +197,38 @@ def py_goal_reachable(sd):
                         acc[a] = q["acc"]
                         changed = True
     return all(acc[a] >= 2 for a, _ in sd["sens"])
+
+
+def search_malformed(rng, psets, budget_s):
+    """failing-input search for C15 after a generator tie broke: many seeds of small parameter sets (those of the
+    run and fresh random ones, uniform and correlated, probabilities as numbers and as lists), each judged by the
+    independent clause judge.  Returns (violations, scenarios tried)."""
+    import nasim
+    t0, found, tried = time.time(), [], 0
+    small = [(n_, p_) for n_, p_ in psets if p_["num_hosts"] <= 12]
+    while time.time() - t0 < budget_s and len(found) < 2:
+        if small and rng.random() < 0.5:
+            name, p = rng.choice(small)
+        else:
+            name, p = "search", random_params(rng, small=True)
+            if names_risky(p):
+                continue
+        s = rng.randrange(100000)
+        np.random.seed(s)
+        try:
+            sc = nasim.generate_scenario(**{k: v for k, v in p.items() if k != "seed"})
+            probs = judge_generated(p, sc)
+        except Inexact:
+            raise
+        except Exception as e:   # noqa: BLE001
+            probs = [f"the generator / the judge's reading of its scenario raised {e!r}"[:200]]
+        tried += 1
+        if probs:
+            found.append(dict(kind="generator-params", property="C15", failing_input_found=True, signature=None,
+                              params=p, seed=s, name=name,
+                              what="generated scenario breaks the documented invariants (found by the search that "
+                                   "follows a broken generator correspondence): " + "; ".join(probs[:4])))
+    return found, tried
 
 
 def search_unsolvable(rng, psets, budget_s, reuse):
@@ -601,6 +649,11 @@ def run(ctx, spec):
         stats["c14_jobs"] = len(jobs)
         stats["c14_runs"] = list(runs)
         out["samples"].append(dict(job=jobs[0], fingerprint=base[0]))
+    if pid == "C15" and any(v["kind"] == "broken-correspondence" for v in out["violations"]) \
+       and not any(v.get("failing_input_found") and v.get("signature") is None for v in out["violations"]):
+        found, tried = search_malformed(rng, psets, 40 if tier == "quick" else 600)
+        stats["failing_input_search_scenarios"] = tried
+        out["violations"] += found
     # ---- C15: the deterministic skeleton (subnet sizes, topology) for EVERY number of hosts in a range
     if pid == "C15":
         from nasim.scenarios.generator import ScenarioGenerator
